@@ -1,4 +1,4 @@
-import GrVerif.Proofs.Forest7
+import GrVerif.Proofs.Forest8
 /-!
 # C04 — glyph attachments form a forest over the segment's own slots   (partial: left-to-right pipeline, base chain not modelled)
 
@@ -25,9 +25,14 @@ Proved here:
 Trying to prove this found two genuine defects in `put_copy` (a slot made its own parent; a slot attached to a deleted,
 never collected slot) – both repaired in `/repo` (see `known_findings.json`), the model follows the repaired code.
 
-NOT proved: that the parent of a stream slot is itself a slot *of the stream* (proved: it is a real slot that is not on
-the free list), and the base chain built by `linkClusters` (not modelled) – decided by the correspondence of this model
-with the real engine and by the forest predicate evaluated on the implementation's dumps (`tools/props/c04.py`).
+* **attachments stay inside the segment** (`attachments_stay_in_segment`, `Proofs/Forest8.lean`): the parent of a slot of the
+  stream is a slot of the stream.  It combines the forest (`par`: parents are real slots that are not free), `PND` (a
+  parent is never marked deleted – kept by every opcode: `delete` detaches all children, `attach.to` and `put_copy` refuse
+  deleted parents), and `Alloc` (every slot in use that is neither deleted nor a temporary copy is in the stream – part of
+  the stream invariant of C03).
+
+NOT proved: the base chain built by `linkClusters` (not modelled) – decided by the correspondence of this model with the
+real engine and by the forest predicate evaluated on the implementation's dumps (`tools/props/c04.py`).
 -/
 set_option linter.unusedVariables false
 namespace GrVerif.Props.C04
@@ -99,6 +104,17 @@ theorem pipeline_forest (font : Pass.Font) (text : List Nat) (fuel : Nat) {c : C
   ⟨Pass.shape_forest font text fuel e, by
     obtain ⟨l, h1, h2, _⟩ := Pass.shape_wf font text fuel e
     exact ⟨l, h1, h2, fun j hj => (h2.live j hj).2⟩⟩
+
+/-- **C04: attachments stay inside the segment.** For every font and text: in the segment the modelled pipeline returns, a
+slot of the stream that is attached is attached to a slot of the stream (`gr_slot_attached_to` never leaves the
+segment). -/
+theorem attachments_stay_in_segment (font : Pass.Font) (text : List Nat) (fuel : Nat) {c : Ctx} {ci : List Assoc.CI}
+    (e : Pass.shape font text fuel = .ok (some (c, ci))) :
+    ∃ l, Linked c.seg l ∧ Clean c.seg l ∧ ∀ j ∈ l, ∀ p, (c.seg.get j).parent = some p → p ∈ l :=
+  Pass.shape_parents_in_stream font text fuel e
+
+/-- every opcode keeps "a parent is never marked deleted" together with everything else -/
+theorem every_opcode_keeps_parents_alive : OpsPreserve PG := ops_PG
 
 /-- what the forest means for a client that walks the pointers -/
 theorem forest_for_clients {s : Seg} (hF : Forest s) :
